@@ -32,19 +32,47 @@ func Verif_C20_handshake() {
 	ts := V.Bool("timestamps")
 	var seq, ack uint32
 	if arrives {
-		opts := []byte{2, 4, V.U8("mss1"), V.U8("mss2")}
-		if sackPerm {
-			opts = append(opts, 4, 2)
-		} else {
-			opts = append(opts, 1, 1)
-		}
+		var opts []byte
 		var tsv []byte
-		if ts {
-			tsv = V.Bytes("tsdata", 8)
-			opts = append(opts, 8, 10)
-			opts = append(opts, tsv...)
+		if K := V.ParamInt("slots", 0); K > 0 {
+			// free layout: K option slots, each any of NOP / MSS / window scale / SACK-permitted / timestamps, in any
+			// order (the layouts of Linux, Windows and BSD stacks - padding before SACK-permitted included - are
+			// instances); SACK-permitted and timestamps count wherever they stand
+			sackPerm, ts = false, false
+			for i := 0; i < K; i++ {
+				k := V.U8("optkind")
+				V.Assume(k <= 4)
+				switch V.Concretize(int(k)) {
+				case 0:
+					opts = append(opts, 1)
+				case 1:
+					opts = append(opts, 2, 4, V.U8("mss1"), V.U8("mss2"))
+				case 2:
+					opts = append(opts, 3, 3, V.U8("wscale"))
+				case 3:
+					opts = append(opts, 4, 2)
+					sackPerm = true
+				case 4:
+					tsv = V.Bytes("tsdata", 8)
+					opts = append(opts, 8, 10)
+					opts = append(opts, tsv...)
+					ts = true
+				}
+			}
+		} else {
+			opts = []byte{2, 4, V.U8("mss1"), V.U8("mss2")}
+			if sackPerm {
+				opts = append(opts, 4, 2)
+			} else {
+				opts = append(opts, 1, 1)
+			}
+			if ts {
+				tsv = V.Bytes("tsdata", 8)
+				opts = append(opts, 8, 10)
+				opts = append(opts, tsv...)
+			}
+			opts = append(opts, 1, 3, 3, V.U8("wscale"))
 		}
-		opts = append(opts, 1, 3, 3, V.U8("wscale"))
 		for len(opts)%4 != 0 {
 			opts = append(opts, 0)
 		}
